@@ -141,3 +141,44 @@ def runner_lines(tr: Trace, lifecycle: bool = False) -> tuple[list[str], list[st
             ops.append("rticks")
             outs.append(enc.lst([enc.tick(t) for t in logged]))
     return ops, outs
+
+
+def rebuild_lines(tr: Trace) -> tuple[list[str], list[str]]:
+    """`rebuild_state_from_ticks` -- what ctx.to_dict()/running_steps() compute -- on the run's own inputs: the state the
+    run was started from (before the runner rewound it) and the adapter's tick log.  To be appended to `runner_lines(tr)`:
+    the driver then holds exactly that state and that log (`rticks` has just compared it with the adapter's), and the model
+    rebuilds on its own (`rebuildAt`: rewind, then every tick at the current clock).  The real function is called here, at a
+    fixed virtual clock, with the decisions of the real retry policies during the replay recorded per tick."""
+    import random
+    import types
+
+    from workflows.runtime import control_loop as CL
+
+    from .. import vloop
+    from . import live
+
+    calls = [c for c in tr.calls if c.caller in ("run", "_process_tick")]
+    if tr.handler is None or not calls or calls[0].kind != "rewind" or any(c.error is not None for c in calls):
+        return [], []
+    try:
+        logged = list(tr.handler._external_adapter.replay())
+    except Exception:
+        return [], []
+    now = float(int(tr.end_time)) + 1.0
+    dummy = live.Run({"steps": []}, random.Random(0))
+    live._ACTIVE.append(dummy)
+    saved = vloop.CURRENT
+    vloop.CURRENT = types.SimpleNamespace(time=lambda: now)  # type: ignore[assignment]
+    try:
+        try:
+            rebuilt = CL.rebuild_state_from_ticks(calls[0].before, logged)
+            expected = enc.state(rebuilt)
+        except (ValueError, KeyError, IndexError) as e:
+            expected = "crash"
+            tr.notes.append(f"rebuild_state_from_ticks raised {type(e).__name__}: {e}")
+    finally:
+        vloop.CURRENT = saved
+        live._ACTIVE.pop()
+    pols = [oracle_tokens(c.oracle) for c in dummy.trace.calls if c.kind == "reduce"]
+    pols += ["P 0"] * (len(logged) - len(pols))
+    return [f"rebuild {enc.num(now)} {enc.lst(pols[: len(logged)])}"], [expected]
